@@ -138,6 +138,7 @@ class Subset(Profile):
             lead = rng.choice([[], [], [2], [2, 3]])
             # position of the grid dimension among the others: last (usual), first or in between
             op["data"] = {"on": rng.choice(["face", "face", "node", "edge"]), "lead": lead, "axis": rng.choice([len(lead), len(lead), 0, rng.randrange(len(lead) + 1)])}
+            op["data"]["dask"] = rng.random() < 0.3  # lazily evaluated (chunked) data
         k = rng.choice([0, 1, 2, 3, 5])
         op["after"] = [rng.choice(RES_DERIVE) for _ in range(k)]
         # what the source had derived before slicing is what a subset may wrongly inherit
@@ -549,7 +550,12 @@ class Subset(Profile):
                 arr = np.moveaxis(arr, -1, ax)
                 dims = dims[:-1]
                 dims.insert(ax, f"n_{on}")
-        return ux.UxDataArray(arr, dims=dims, uxgrid=g, name="v"), None
+        da = ux.UxDataArray(arr, dims=dims, uxgrid=g, name="v")
+        if spec.get("dask"):
+            da = da.chunk({f"n_{on}": max(1, n // 3)})
+            if getattr(da, "uxgrid", None) is not g:
+                da = ux.UxDataArray(da, uxgrid=g)
+        return da, None
 
     def check_data(self, W, op, res, sub, sm, sf, sn):
         from sim import model as M
